@@ -52,6 +52,9 @@ ASSUMPTIONS = [
     "|v_beam - v_species| >= 2% of the beam speed (otherwise E_int is rounding noise; such points are skipped and counted)",
     "neutral species get the provider's null tables (value 0); the arguments passed to those tables are not judged",
 ]
+ASAN_MODULES = ["cherab.core.model.beam.charge_exchange", "cherab.core.model.beam.beam_emission",
+                "cherab.core.model.lineshape.beam.mse", "cherab.core.model.lineshape.gaussian"]
+ASAN = dict(cases=1500, workers=8, timecap=240)
 QUICK = dict(cases=1200, workers=2, timecap=36)
 THOROUGH = dict(cases=160000, workers=16, timecap=420)
 REQUIRED = {"cx_total": 1500, "cx_mean": 1500, "cx_bounds": 1500, "cx_args": 20000, "bes_total": 1200, "bes_sum": 1200,
@@ -290,7 +293,6 @@ def gen_case(rng, tier):
 
 def fixed_cases(tier):
     """Deterministic hostile / regression scenes (run by shard 0)."""
-    I4 = np.eye(4).tolist()
     one = {"k": "const", "v": 0.0}
 
     def sp(el, ch, n, T, v=(0.0, 0.0, 0.0)):
